@@ -24,7 +24,8 @@ CONSTANTS MaxSeq
 Entries == {"Trace","Tracef","Debug","Debugf","Info","Infof","Warn","Warnf","Error","Errorf",
             "Panic","Panicf","Fatal","Fatalf","Record"}
 Shapes  == {"plain","closure","deferred","goroutine","methodvalue","generic","inlinable",
-            "farline"}     \* a call site whose source line number exceeds 65535
+            "farline",     \* a call site whose source line number exceeds 65535
+            "twofileA", "twofileB"}   \* two statements of ONE function that lie in different source files
 Modes   == {"default","fast"}
 
 \* frames are numbered by their distance from the logging entry point:
@@ -41,24 +42,27 @@ Expected(skip)   == skip              \* skip = 1 is the statement that called t
 
 SkipOf(entry, recSkip) == IF entry = "Record" THEN recSkip ELSE 1
 
+Empty == 0 - 99                       \* the empty location (frame 0 is the entry point itself: Record with skip 0)
 Located(mode, enable, skip) ==
-  IF ~enable THEN 0                   \* 0 = empty location
+  IF ~enable THEN Empty
   ELSE IF mode = "default" THEN ByCaller(DefaultArg(skip))
   ELSE ByCallers(FastArg(skip))
 
-SkipArithmetic == \A m \in Modes, k \in 1..MaxSkip : Located(m, TRUE, k) = Expected(k)
-ModesAgree     == \A k \in 1..MaxSkip : Located("default", TRUE, k) = Located("fast", TRUE, k)
+SkipArithmetic == \A m \in Modes, k \in 0..MaxSkip : Located(m, TRUE, k) = Expected(k)
+ModesAgree     == \A k \in 0..MaxSkip : Located("default", TRUE, k) = Located("fast", TRUE, k)
 
 (************ site sequences: repeated calls exercise the cache ************)
 VARIABLES mode, enable, calls, cache, seen
 vars == <<mode, enable, calls, cache, seen>>
 
-Sites == [entry : Entries, shape : Shapes, skip : 1..MaxSkip]
+Sites == [entry : Entries, shape : Shapes, skip : 0..MaxSkip]
 ValidSite(s) == /\ (s.entry = "Record" \/ s.skip = 1) /\ (s.skip = 1 \/ s.shape = "plain")
                 /\ (s.shape = "farline" => s.entry \in {"Info", "Debugf"})
+                /\ (s.shape \in {"twofileA", "twofileB"} => s.entry = "Info")
 
 Others == { [entry |-> "Info", shape |-> "plain", skip |-> 1],
-            [entry |-> "Record", shape |-> "plain", skip |-> 2] }
+            [entry |-> "Record", shape |-> "plain", skip |-> 2],
+            [entry |-> "Info", shape |-> "twofileB", skip |-> 1] }
 
 Init == /\ mode \in Modes /\ enable \in BOOLEAN
         /\ calls = <<>> /\ cache = {} /\ seen = <<>>
@@ -79,7 +83,7 @@ Next == \E s \in Sites : Call(s)
 Spec == Init /\ [][Next]_vars
 
 HitEqualsMiss == \A i, j \in DOMAIN calls : calls[i] = calls[j] => seen[i].loc = seen[j].loc
-DisabledIsEmpty == ~enable => \A i \in DOMAIN seen : seen[i].loc = 0
+DisabledIsEmpty == ~enable => \A i \in DOMAIN seen : seen[i].loc = Empty
 EnabledIsExpected == enable => \A i \in DOMAIN seen : seen[i].loc = Expected(calls[i].skip)
 
 Emit == (Len(calls) = MaxSeq) =>
